@@ -228,11 +228,30 @@ func (j *judge) laws(c Case, r ref.Ref) {
 	wantTag.Tag, wantTag.Digest = lawTag, ""
 	wantDig.Tag, wantDig.Digest = "", lawDigest
 	wantAdd.Digest = lawDigest
-	for _, sc := range []setCase{
+	cases := []setCase{
 		{"SetTag", r.SetTag(lawTag), wantTag},
 		{"SetDigest", r.SetDigest(lawDigest), wantDig},
 		{"AddDigest", r.AddDigest(lawDigest), wantAdd},
-	} {
+	}
+	// replacing a component by the value it already has must do the rest of the setter's job too:
+	// SetTag unsets the digest, SetDigest unsets the tag; and setters applied one after the other
+	{
+		wSameTag, wSameDig, wEmptyTag := f, f, f
+		wSameTag.Digest = ""
+		wSameDig.Tag = ""
+		wEmptyTag.Tag, wEmptyTag.Digest = "", ""
+		cases = append(cases,
+			setCase{"SetTag(same)", r.SetTag(r.Tag), wSameTag},
+			setCase{"SetTag(empty)", r.SetTag(""), wEmptyTag},
+			setCase{"AddDigest.SetDigest(same)", r.AddDigest(lawDigest).SetDigest(lawDigest), wantDig},
+			setCase{"AddDigest.SetTag(same)", r.AddDigest(lawDigest).SetTag(r.Tag), wSameTag},
+			setCase{"SetTag.AddDigest.SetDigest(same)", r.SetTag(lawTag).AddDigest(lawDigest).SetDigest(lawDigest), wantDig},
+		)
+		if r.Digest != "" {
+			cases = append(cases, setCase{"SetDigest(same)", r.SetDigest(r.Digest), wSameDig})
+		}
+	}
+	for _, sc := range cases {
 		j.count("clause3.set." + sc.name)
 		if d := diffField(fieldsOf(sc.got), sc.want); d != "" {
 			j.viol(c, "laws/"+sc.name+"/changed-"+d+" "+sch, "%s on %+v gave %+v, want %+v", sc.name, f, fieldsOf(sc.got), sc.want)
@@ -249,6 +268,11 @@ func (j *judge) laws(c Case, r ref.Ref) {
 			continue
 		}
 		r3, err := ref.New(sc.got.Reference)
+		if err == nil && sc.want.Tag == "" && sc.want.Digest == "" && r3.Scheme == "reg" && r3.Tag == "latest" {
+			// a registry reference without tag and digest prints as the bare repository, which parses
+			// with the default tag: documented, not a round-trip failure
+			r3.Tag = ""
+		}
 		if err != nil {
 			j.viol(c, "laws/"+sc.name+"/reparse-error "+sch, "%s gave %q which does not parse: %v", sc.name, sc.got.Reference, err)
 		} else if d := diffField(fieldsOf(r3), sc.want); d != "" {
